@@ -2053,19 +2053,30 @@ class Parallel(Logger):
         # Following flag prevents double calls to `backend.stop_call`.
         self._calling = True
 
-        iterator = iter(iterable)
-        pre_dispatch = self.pre_dispatch
+        try:
+            iterator = iter(iterable)
+            pre_dispatch = self.pre_dispatch
 
-        if pre_dispatch == "all":
-            # prevent further dispatch via multiprocessing callback thread
+            if pre_dispatch == "all":
+                # prevent further dispatch via multiprocessing callback thread
+                self._original_iterator = None
+                self._pre_dispatch_amount = 0
+            else:
+                self._original_iterator = iterator
+                if hasattr(pre_dispatch, "endswith"):
+                    pre_dispatch = eval_expr(
+                        pre_dispatch.replace("n_jobs", str(n_jobs))
+                    )
+                self._pre_dispatch_amount = pre_dispatch = int(pre_dispatch)
+        except BaseException:
+            # The call cannot start (e.g. the input's __iter__ raised): do not
+            # leave this object in the running state for ever.
             self._original_iterator = None
-            self._pre_dispatch_amount = 0
-        else:
-            self._original_iterator = iterator
-            if hasattr(pre_dispatch, "endswith"):
-                pre_dispatch = eval_expr(pre_dispatch.replace("n_jobs", str(n_jobs)))
-            self._pre_dispatch_amount = pre_dispatch = int(pre_dispatch)
+            self._running = False
+            self._terminate_and_reset()
+            raise
 
+        if pre_dispatch != "all":
             # The main thread will consume the first pre_dispatch items and
             # the remaining items will later be lazily dispatched by async
             # callbacks upon task completions.
